@@ -66,6 +66,17 @@ def handler(payload):
                 res["load"] = capture(lambda: [[a, b] for a, b in cnt.load_counter(path).items()])
                 if res["load"]["status"] == "ok":
                     res["load_type"] = type(cnt.load_counter(path)).__name__
+                if "items2" in job:
+                    # a history in one process: ANOTHER table (same keys, same file size) saved to the SAME path
+                    # straight away and loaded again must come back as that table
+                    c2 = collections.Counter()
+                    for key, v in job["items2"]:
+                        c2[key] = v
+                    if "header" in job:
+                        cnt.save_counter(c2, path, header=job["header"])
+                    else:
+                        cnt.save_counter(c2, path)
+                    res["load2"] = capture(lambda: [[a, b] for a, b in cnt.load_counter(path).items()])
                 return res
             out.append(capture(go))
             if os.path.exists(path):
